@@ -24,6 +24,11 @@ def _work(task):
     if kind == "Q":
         for g in payload:
             recs.append(queries.run_queries(g))
+    elif kind == "H":
+        seed, graphs = payload
+        rng = random.Random(seed)
+        for g in graphs:
+            recs += queries.hier_cases(g, rng)
     else:
         seed, cnt, nmax = payload
         rng = random.Random(seed)
@@ -33,6 +38,8 @@ def _work(task):
             recs.append(queries.run_queries(g, b, plain=False, rng=rng))
     with open(path, "w") as f:
         json.dump(recs, f, separators=(",", ":"))
+    if kind == "H":
+        return {"path": path, "n": len(recs), "samples": [{"lvl": r["lvl"], "s": r["s"]} for r in recs[:2]], "nontrivial": len(recs), "hier": True}
     return {"path": path, "n": len(recs), "samples": [r["g"] for r in recs[:2]],
             "nontrivial": sum(1 for r in recs if any(len(c) > 1 for c in r["scc"]) or any(x[2] for x in r["reach"]))}
 
@@ -102,6 +109,14 @@ def main(argv):
                 k = 64
                 for i in range(k):
                     tasks.append(("Q", big[i::k], os.path.join(d, "qb-%02d.json" % i)))
+            # sub-graphs of regions inside restructured hierarchies (closed CFGs with 4 and 5 nodes, a sample)
+            from .. import domains as _dm
+
+            hg = [_dm.graph_to_named(g) for g in _dm.closed_cfgs(4)] + [_dm.graph_to_named(g) for g in rb.closed5_canon()]
+            hrng = random.Random(args.seed * 31 + 9)
+            hg = hrng.sample(hg, 240 if quick else 2400)
+            for i in range(8):
+                tasks.append(("H", (args.seed * 77 + i, hg[i::8]), os.path.join(d, "h-%02d.json" % i)))
             nr = 8 if quick else 64
             for i in range(nr):
                 tasks.append(("R", (args.seed * 1000 + i, 150 if quick else 600, 7 if quick else 9), os.path.join(d, "r-%02d.json" % i)))
@@ -116,7 +131,7 @@ def main(argv):
                     envs.append({"CASES": o["path"], "EXHN": "0", "EXHD": "0", "EXH": ""})
         results = tlc.run_shards("Queries", CFG, envs, jobs=args.jobs, workers=1, timeout=6000, heap="3g")
         tlc.require_ok(results, "Queries")
-        impl = {} if args.replay else impl_layer(rep, quick, [o["path"] for o in outs], args.jobs)
+        impl = {} if args.replay else impl_layer(rep, quick, [o["path"] for o in outs if not o.get("hier")], args.jobs)
         states = gen = 0
         total = 0
         for o, tr_ in zip(outs, results):
@@ -134,6 +149,9 @@ def main(argv):
                     if q.startswith("MACHINERY"):
                         raise tlc.MachineryError("Queries: " + q)
                     r = recs[st["tid"] - 1]
+                    if "lvl" in r:
+                        rep.violation(q, {"H": r["H"], "lvl": r["lvl"], "s": r["s"]}, detail={k: r.get(k) for k in ("h", "e", "x", "t", "heexc")})
+                        continue
                     rep.violation(q, {"g": r["g"], "b": r["b"]}, detail={k: r.get(k) for k in ("scc", "head", "doms", "pdoms", "idoms", "ipdoms")})
     finally:
         tlc.cleanup(d)
